@@ -20,6 +20,16 @@
        close / shutdown(Write) of a tracked descriptor are the model's Shutdown / Close
      * a readiness report (the selector's `io_flag.fetch_or`) needs a pending event of the model kernel: the edge of K3
        if there is one, otherwise the acceptor plays `Spurious` first (K4 allows it at any time)
+     * accept on a tracked LISTENER (op 5): EAGAIN needs an empty model backlog (K5), success carries the connecting
+       descriptor whose connection is handed over (the tap keeps the order in which connects were issued towards the
+       listener) and must be the head of the model backlog - if that connection has not entered it yet (TCP: the
+       handshake completes asynchronously) the acceptor plays `Establish` / `Deliver` first;
+       connect on a tracked socket (op 6): 0 / EISCONN need an attempt that has not failed (played: completes at once
+       from CNone, else `Establish` first), EINPROGRESS a fresh socket, EALREADY an attempt in progress, any other
+       errno e a fresh socket (fails at once) or an attempt in progress (`Refuse e` first): K6
+   connect has no `IoData::reset`: the io_flag word of a connecting descriptor is learnt at the re-check of its first
+   kernel half (24) or when the selector takes its coroutine (41); a readiness report that came before that is replayed
+   then (`dang`: its SelTake follows as soon as the slot is empty again).
    Time: the scenario logs the virtual clock (unit: 10 us) with its API events only (normalize.py drops the `now`
    column of the hooked records), so the model clock is a LOWER BOUND of the virtual clock, exact at every logged
    value: a timer that the code treats as due raises it to the deadline (`Tick`), a logged value below the model clock
@@ -68,7 +78,8 @@ Record aux := {
   ctgt : nat -> option nat;      (* thread -> model actor it is cancelling *)
   precan : list nat;             (* scenario indices cancelled before they announced themselves *)
   cnull : nat -> option nat;     (* descriptor -> the timer entry a cancel has nulled (second half of the cancel played) *)
-  seen : list nat                (* model actors that started an operation *)
+  seen : list nat;               (* model actors that started an operation *)
+  dang : list nat                (* descriptors whose replayed readiness report still lacks its SelTake *)
 }.
 (* `acap`: the capacity K1 of the kernel object the trace is checked against.  The scenario may announce it with its
    FIRST event (io.cap: a writer-blocking scenario measures it on a probe connection: how many of its fixed-size
@@ -78,18 +89,19 @@ Record ast := { ms : st; ax : aux; acap : nat; fresh : bool }.
 Definition aux0 : aux :=
   {| tm := fun _ => MNone; cmap := []; nco := 0; oflag := []; oco := []; preflag := []; selthr := fun _ => None;
      selcur := fun _ => None; selpre := fun _ => None; fds := []; dgr := fun _ => false; amap := fun _ => None; cpend := fun _ => None;
-     ctgt := fun _ => None; precan := []; cnull := fun _ => None; seen := [] |}.
+     ctgt := fun _ => None; precan := []; cnull := fun _ => None; seen := []; dang := [] |}.
 Definition capv : nat := 100 * 1000.                   (* default: no tracked write ever finds the buffer full (small transfers) *)
 Definition ainit : ast := {| ms := init; ax := aux0; acap := capv; fresh := true |}.
 
-Definition set_tm x v := {| tm := v; cmap := cmap x; nco := nco x; oflag := oflag x; oco := oco x; preflag := preflag x; selthr := selthr x; selcur := selcur x; selpre := selpre x; fds := fds x; dgr := dgr x; amap := amap x; cpend := cpend x; ctgt := ctgt x; precan := precan x; cnull := cnull x; seen := seen x |}.
-Definition set_cmap x v n := {| tm := tm x; cmap := v; nco := n; oflag := oflag x; oco := oco x; preflag := preflag x; selthr := selthr x; selcur := selcur x; selpre := selpre x; fds := fds x; dgr := dgr x; amap := amap x; cpend := cpend x; ctgt := ctgt x; precan := precan x; cnull := cnull x; seen := seen x |}.
-Definition set_oflag x v p := {| tm := tm x; cmap := cmap x; nco := nco x; oflag := v; oco := oco x; preflag := p; selthr := selthr x; selcur := selcur x; selpre := selpre x; fds := fds x; dgr := dgr x; amap := amap x; cpend := cpend x; ctgt := ctgt x; precan := precan x; cnull := cnull x; seen := seen x |}.
-Definition set_oco x v := {| tm := tm x; cmap := cmap x; nco := nco x; oflag := oflag x; oco := v; preflag := preflag x; selthr := selthr x; selcur := selcur x; selpre := selpre x; fds := fds x; dgr := dgr x; amap := amap x; cpend := cpend x; ctgt := ctgt x; precan := precan x; cnull := cnull x; seen := seen x |}.
-Definition set_sel x v c p := {| tm := tm x; cmap := cmap x; nco := nco x; oflag := oflag x; oco := oco x; preflag := preflag x; selthr := v; selcur := c; selpre := p; fds := fds x; dgr := dgr x; amap := amap x; cpend := cpend x; ctgt := ctgt x; precan := precan x; cnull := cnull x; seen := seen x |}.
-Definition set_fds x v d s := {| tm := tm x; cmap := cmap x; nco := nco x; oflag := oflag x; oco := oco x; preflag := preflag x; selthr := selthr x; selcur := selcur x; selpre := selpre x; fds := v; dgr := d; amap := amap x; cpend := cpend x; ctgt := ctgt x; precan := precan x; cnull := cnull x; seen := s |}.
-Definition set_cnull x v := {| tm := tm x; cmap := cmap x; nco := nco x; oflag := oflag x; oco := oco x; preflag := preflag x; selthr := selthr x; selcur := selcur x; selpre := selpre x; fds := fds x; dgr := dgr x; amap := amap x; cpend := cpend x; ctgt := ctgt x; precan := precan x; cnull := v; seen := seen x |}.
-Definition set_can x am cp ct pc := {| tm := tm x; cmap := cmap x; nco := nco x; oflag := oflag x; oco := oco x; preflag := preflag x; selthr := selthr x; selcur := selcur x; selpre := selpre x; fds := fds x; dgr := dgr x; amap := am; cpend := cp; ctgt := ct; precan := pc; cnull := cnull x; seen := seen x |}.
+Definition set_tm x v := {| tm := v; cmap := cmap x; nco := nco x; oflag := oflag x; oco := oco x; preflag := preflag x; selthr := selthr x; selcur := selcur x; selpre := selpre x; fds := fds x; dgr := dgr x; amap := amap x; cpend := cpend x; ctgt := ctgt x; precan := precan x; cnull := cnull x; seen := seen x; dang := dang x |}.
+Definition set_cmap x v n := {| tm := tm x; cmap := v; nco := n; oflag := oflag x; oco := oco x; preflag := preflag x; selthr := selthr x; selcur := selcur x; selpre := selpre x; fds := fds x; dgr := dgr x; amap := amap x; cpend := cpend x; ctgt := ctgt x; precan := precan x; cnull := cnull x; seen := seen x; dang := dang x |}.
+Definition set_oflag x v p := {| tm := tm x; cmap := cmap x; nco := nco x; oflag := v; oco := oco x; preflag := p; selthr := selthr x; selcur := selcur x; selpre := selpre x; fds := fds x; dgr := dgr x; amap := amap x; cpend := cpend x; ctgt := ctgt x; precan := precan x; cnull := cnull x; seen := seen x; dang := dang x |}.
+Definition set_oco x v := {| tm := tm x; cmap := cmap x; nco := nco x; oflag := oflag x; oco := v; preflag := preflag x; selthr := selthr x; selcur := selcur x; selpre := selpre x; fds := fds x; dgr := dgr x; amap := amap x; cpend := cpend x; ctgt := ctgt x; precan := precan x; cnull := cnull x; seen := seen x; dang := dang x |}.
+Definition set_sel x v c p := {| tm := tm x; cmap := cmap x; nco := nco x; oflag := oflag x; oco := oco x; preflag := preflag x; selthr := v; selcur := c; selpre := p; fds := fds x; dgr := dgr x; amap := amap x; cpend := cpend x; ctgt := ctgt x; precan := precan x; cnull := cnull x; seen := seen x; dang := dang x |}.
+Definition set_fds x v d s := {| tm := tm x; cmap := cmap x; nco := nco x; oflag := oflag x; oco := oco x; preflag := preflag x; selthr := selthr x; selcur := selcur x; selpre := selpre x; fds := v; dgr := d; amap := amap x; cpend := cpend x; ctgt := ctgt x; precan := precan x; cnull := cnull x; seen := s; dang := dang x |}.
+Definition set_cnull x v := {| tm := tm x; cmap := cmap x; nco := nco x; oflag := oflag x; oco := oco x; preflag := preflag x; selthr := selthr x; selcur := selcur x; selpre := selpre x; fds := fds x; dgr := dgr x; amap := amap x; cpend := cpend x; ctgt := ctgt x; precan := precan x; cnull := v; seen := seen x; dang := dang x |}.
+Definition set_dang x v := {| tm := tm x; cmap := cmap x; nco := nco x; oflag := oflag x; oco := oco x; preflag := preflag x; selthr := selthr x; selcur := selcur x; selpre := selpre x; fds := fds x; dgr := dgr x; amap := amap x; cpend := cpend x; ctgt := ctgt x; precan := precan x; cnull := cnull x; seen := seen x; dang := v |}.
+Definition set_can x am cp ct pc := {| tm := tm x; cmap := cmap x; nco := nco x; oflag := oflag x; oco := oco x; preflag := preflag x; selthr := selthr x; selcur := selcur x; selpre := selpre x; fds := fds x; dgr := dgr x; amap := am; cpend := cp; ctgt := ct; precan := pc; cnull := cnull x; seen := seen x; dang := dang x |}.
 
 (* ---- small helpers ---------------------------------------------------------------------------------------- *)
 Definition pcn (p : pc) : nat :=
@@ -99,7 +111,7 @@ Definition pc_eqb (p q : pc) : bool := Nat.eqb (pcn p) (pcn q).
 Definition outside (p : pc) : bool := match p with Idle | Dead => true | _ => false end.
 Definition znz (v : Z) : bool := negb (Z.eqb v 0).
 Definition is_some {X} (o : option X) : bool := match o with Some _ => true | None => false end.
-Definition kind_eqb (a b : kind) : bool := match a, b with Rd, Rd | Wr, Wr => true | _, _ => false end.
+Definition kind_eqb (a b : kind) : bool := match a, b with Rd, Rd | Wr, Wr | Ac, Ac | Co, Co => true | _, _ => false end.
 Fixpoint zassoc (l : list (Z * nat)) (k : Z) : option nat :=
   match l with [] => None | (k', v) :: r => if Z.eqb k k' then Some v else zassoc r k end.
 Definition zmem (l : list Z) (k : Z) : bool := existsb (Z.eqb k) l.
@@ -172,8 +184,21 @@ Fixpoint pick_timer (m : st) (f : nat) (n : nat) (best : option nat) : option na
       pick_timer m f n' best'
   end.
 
+(* a replayed readiness report whose SelTake is still due: played as soon as the slot is empty (the real take found nothing) *)
+Definition undang (m : st) (x : aux) (f : nat) : list action :=
+  if nmem (dang x) f then match Sel m f, co m f with SEv _, None => [SelTake f] | _, _ => [] end else [].
+Definition undang_x (m : st) (x : aux) (f : nat) : aux :=
+  if nmem (dang x) f then match Sel m f, co m f with SEv _, None => set_dang x (filter (fun g => negb (Nat.eqb g f)) (dang x)) | _, _ => x end else x.
+
+(* K5 / K6: the connection of connecting descriptor c enters the backlog of its listener (if it has not yet) *)
+Definition deliver (m : st) (c : nat) : list action :=
+  if kdeliv (Kn m c) then [] else (match kst (Kn m c) with CProg => [Establish c] | _ => [] end) ++ [Deliver c].
+
 Local Open Scope Z_scope.
 
+Definition EINPROGRESS_ : Z := 4294967296 + 115.
+Definition EALREADY_ : Z := 4294967296 + 114.
+Definition EISCONN_ : Z := 4294967296 + 106.
 Definition EAGAIN_ : Z := 4294967296 + 11.
 Definition is_err (v : Z) : bool := 4294967296 <=? v.
 
@@ -243,14 +268,15 @@ Definition mkplan (s : ast) (e : list Z) : plan :=
         if (now m <? n)%nat then acts x [Tick (n - now m)] else obs x (Nat.eqb (now m) n)
     | 6 => (* io.call: obj = f + 256 kind + 512 cn + 1024 dgram, val = (timeout + 1) * 2^36 + off * 2^16 + n *)
         let f' := Z.to_nat (obj mod 256) in
-        let k := if Z.eqb ((obj / 256) mod 2) 0 then Rd else Wr in
+        let k := if Z.eqb ((obj / 2048) mod 2) 1 then Ac else if Z.eqb ((obj / 4096) mod 2) 1 then Co
+                 else if Z.eqb ((obj / 256) mod 2) 0 then Rd else Wr in
         let cn := Z.eqb ((obj / 512) mod 2) 1 in
         let dg := Z.eqb ((obj / 1024) mod 2) 1 in
         let to := let z := v / 68719476736 in if Z.eqb z 0 then None else Some (Z.to_nat (z - 1)) in
         let off := Z.to_nat ((v / 65536) mod 1048576) in
         let n := Z.to_nat (v mod 65536) in
-        let l := match k with Rd => [] | Wr => if dg then [off] else seq off n end in
-        let n' := match k with Rd => if dg then 1%nat else n | Wr => 0%nat end in
+        let l := match k with Wr => if dg then [off] else seq off n | _ => [] end in
+        let n' := match k with Rd => if dg then 1%nat else n | Wr | Ac => 0%nat | Co => n end in
         acts (set_fds x (if nmem (fds x) f' then fds x else f' :: fds x) (upd (dgr x) f' dg)
                         (if nmem (seen x) a then seen x else a :: seen x))
              [Start a f' k cn to l n']
@@ -283,6 +309,43 @@ Definition mkplan (s : ast) (e : list Z) : plan :=
                      (if closed m f' || is_some (busy m f') then [] else [Close f']))
         | 3 => (* shutdown(Write) *)
             acts x (if wshut (P m f') then [] else [Shutdown f'])
+        | 5 => (* accept on listener f': v = the connecting descriptor whose connection is handed over | error *)
+            if (at_ PTry || at_ LSys) && Nat.eqb f f' && kind_eqb (akind r) Ac then
+              if Z.eqb v EAGAIN_ then actsp x [Step a 0] (fun m' => pc_eqb (apc (A m' a)) PYield || pc_eqb (apc (A m' a)) LChk)
+              else if is_err v then None
+              else let c := Z.to_nat v in
+                   chk (Nat.eqb (ktgt (Kn m c)) f' || negb (kdeliv (Kn m c)))
+                       (actsp x (deliver m c ++ [Step a 0])
+                              (fun m' => match alast (A m' a) with Some (RAcc c') => Nat.eqb c c' && outside (apc (A m' a)) | _ => false end))
+            else None
+        | 6 => (* connect of f' *)
+            if (at_ PTry || at_ LSys) && Nat.eqb f f' && kind_eqb (akind r) Co then
+              let conn := fun m' => match alast (A m' a) with Some RConn => outside (apc (A m' a)) | _ => false end in
+              let again := fun m' => (pc_eqb (apc (A m' a)) PYield || pc_eqb (apc (A m' a)) LChk) &&
+                                     match kst (Kn m' f') with CProg => true | _ => false end in
+              match kst (Kn m f') with
+              | CNone =>
+                  if Z.eqb v 0 then actsp x [Step a 1] conn
+                  else if Z.eqb v EINPROGRESS_ then actsp x [Step a 0] again
+                  else if is_err v && negb (Z.eqb v EALREADY_) && negb (Z.eqb v EISCONN_) then
+                    let e := Z.to_nat (v - 4294967296) in
+                    actsp x [Step a (S (S e))] (fun m' => match alast (A m' a) with Some (RErr e') => Nat.eqb e e' && outside (apc (A m' a)) | _ => false end)
+                  else None
+              | CProg =>
+                  if Z.eqb v EALREADY_ then actsp x [Step a 0] again
+                  else if Z.eqb v 0 || Z.eqb v EISCONN_ then actsp x [Establish f'; Step a 0] conn
+                  else if is_err v && negb (Z.eqb v EINPROGRESS_) then
+                    let e := Z.to_nat (v - 4294967296) in
+                    actsp x [Refuse f' e; Step a 0] (fun m' => match alast (A m' a) with Some (RErr e') => Nat.eqb e e' && outside (apc (A m' a)) | _ => false end)
+                  else None
+              | CEst | CConn => if Z.eqb v 0 || Z.eqb v EISCONN_ then actsp x [Step a 0] conn else None
+              | CRef e => if Z.eqb v (4294967296 + Z.of_nat e) then
+                            actsp x [Step a 0] (fun m' => match alast (A m' a) with Some (RErr e') => Nat.eqb e e' && outside (apc (A m' a)) | _ => false end)
+                          else None
+              end
+            else None
+        | 7 => (* close of a listener *)
+            acts x (if closed m f' || is_some (busy m f') then [] else [Close f'])
         | _ => None
         end
     | 8 => (* io.ret: obj = f + 256 status (0 ok, 1 timed out, 2 other error), val = off * 2^16 + n *)
@@ -300,11 +363,13 @@ Definition mkplan (s : ast) (e : list Z) : plan :=
                              else if Nat.eqb n 0 then match alast r with Some REof => true | _ => false end
                              else res_ok (alast r) (seq off n))
               | Wr => obs x (match alast r with Some (RWrote n') => Nat.eqb n' (if dg then 1%nat else n) | _ => false end)
+              | Ac => obs x (match alast r with Some (RAcc c) => Nat.eqb c n | _ => false end)
+              | Co => obs x (match alast r with Some RConn => true | _ => false end)
               end
             else None
         | 1 => if at_ LRes then actsp x [Step a 0] (fun m' => match alast (A m' a) with Some RTimedOut => pc_eqb (apc (A m' a)) Idle | _ => false end)
                else None
-        | _ => obs x (at_ Idle && match alast r with Some RPipe | Some REof => true | _ => false end)
+        | _ => obs x (at_ Idle && match alast r with Some RPipe | Some REof | Some (RErr _) => true | _ => false end)
         end
     | 9 => (* io.actor k *)
         let k := Z.to_nat obj in
@@ -349,17 +414,42 @@ Definition mkplan (s : ast) (e : list Z) : plan :=
             end
         | _ => None
         end
-    | 24 => (* io_flag.load -> v: the re-check after the store *)
+    | 24 => (* io_flag.load -> v: the re-check after the store.  The first access to the io_flag word of a connecting
+               descriptor that tells whose it is (connect has no IoData::reset): a readiness report on this word that
+               came before is played now; its take found the slot empty (it came before the store, else 41 had bound the
+               word): the SelTake follows with the selector thread's own take if that is still to come, else when the slot is
+               empty again (`dang`) *)
         match tm x t with
         | MKer k => match spc_ (Sb m k) with
-                    | SChk => chk (Bool.eqb (znz v) (flag m (sfd (Sb m k)))) (acts x [Sub k false])
+                    | SChk =>
+                        let f' := sfd (Sb m k) in
+                        match bindo (closed m) (oflag x) obj f' with
+                        | Some ofl =>
+                            let pre := zmem (preflag x) obj && negb (is_some (zassoc (oflag x) obj)) && znz v
+                                       && match Sel m f' with SIdle => true | _ => false end in
+                            let x1 := set_oflag x ofl (if pre then filter (fun o => negb (Z.eqb o obj)) (preflag x) else preflag x) in
+                            (* the selector thread that reported it may still be on its way to the slot: its take (41) follows *)
+                            let late := find (fun t' => match selpre x t' with Some o => Z.eqb o obj | None => false end) (seq 0 64) in
+                            let x' := match pre, late with
+                                      | true, Some t' => set_sel x1 (upd (selthr x1) f' (Some t')) (upd (selcur x1) t' (Some f')) (upd (selpre x1) t' None)
+                                      | true, None => set_dang x1 (f' :: dang x1)
+                                      | false, _ => x1 end in
+                            chk (Bool.eqb (znz v) (flag m f' || pre))
+                                (acts x' ((if pre then [Spurious f'; SelEvent f' f'] else []) ++ [Sub k false]))
+                        | None => None
+                        end
                     | _ => None end
         | _ => None
         end
     | 25 => (* fast_schedule: co.take() -> some *)
         match tm x t with
         | MKer k => match spc_ (Sb m k) with
-                    | SFast => chk (Bool.eqb (znz v) (is_some (co m (sfd (Sb m k))))) (acts x [Sub k false])
+                    | SFast =>
+                        let f' := sfd (Sb m k) in
+                        let dg := nmem (dang x) f' && match Sel m f' with SEv _ => true | _ => false end in
+                        chk (Bool.eqb (znz v) (is_some (co m f')))
+                            (acts (if dg then set_dang x (filter (fun g => negb (Nat.eqb g f')) (dang x)) else x)
+                                  ([Sub k false] ++ (if dg then [SelTake f'] else [])))
                     | _ => None end
         | _ => None
         end
@@ -436,8 +526,8 @@ Definition mkplan (s : ast) (e : list Z) : plan :=
             match bindthr (selthr x) f' t with
             | Some sth =>
                 chk (Bool.eqb (znz v) (flag m f'))
-                    (acts (set_sel x sth (upd (selcur x) t (Some f')) (upd (selpre x) t None))
-                          (flush m x t ++ (if pend m f' then [] else [Spurious f']) ++ [SelEvent f' f']))
+                    (acts (set_sel (undang_x m x f') sth (upd (selcur x) t (Some f')) (upd (selpre x) t None))
+                          (undang m x f' ++ flush m x t ++ (if pend m f' then [] else [Spurious f']) ++ [SelEvent f' f']))
             | None => None
             end
         end
@@ -449,7 +539,22 @@ Definition mkplan (s : ast) (e : list Z) : plan :=
             | SIdle, _ => ok x       (* an event on a word that was not bound yet: nothing to take *)
             | _, _ => None
             end
-        | None => ok (set_sel x (selthr x) (selcur x) (upd (selpre x) t None))    (* the slot of a descriptor that is not in use *)
+        | None =>
+            match selpre x t, zassoc (oco x) obj with
+            | Some w, Some f' =>
+                (* the selector reported an event on a word not yet bound (a connecting descriptor: no IoData::reset) and
+                   now looks into a slot that is: the word is this descriptor's; report and take are played together *)
+                if closed m f' then ok (set_sel x (selthr x) (selcur x) (upd (selpre x) t None)) else
+                match bindo (closed m) (oflag x) w f', bindthr (selthr x) f' t, Sel m f' with
+                | Some ofl, Some sth, SIdle =>
+                    chk (Bool.eqb (znz v) (is_some (co m f')))
+                        (acts (set_sel (set_oflag x ofl (filter (fun o => negb (Z.eqb o w)) (preflag x)))
+                                       sth (upd (selcur x) t (Some f')) (upd (selpre x) t None))
+                              (flush m x t ++ (if pend m f' then [] else [Spurious f']) ++ [SelEvent f' f'; SelTake f']))
+                | _, _, _ => None
+                end
+            | _, _ => ok (set_sel x (selthr x) (selcur x) (upd (selpre x) t None))    (* the slot of a descriptor that is not in use *)
+            end
         end
     | 42 => (* timeout_handler: io_flag.fetch_or(TIMER_MARK) -> old; the entry was popped because it is due *)
         match zassoc (oflag x) obj with
